@@ -129,6 +129,10 @@ func (nd *ndArrayTypeC) Reshape(newShape []int) (data.NDArrayType, error) {
 	reshapeToSeries := (len(newShape) == 1) && (data.Maximum(nd.Shape()) == len(newShape))
 
 	if nd.Contiguous() || !reshapeToSeries {
+		if !nd.Contiguous() {
+			// contiguous strides over the same memory cannot describe a non-contiguous view: copy, as the native arrays do
+			return data.ArrayFromSliceArrayType(nd.Unroll(), newShape), nil
+		}
 		result.Start = nd.Start
 		result.Impl = nd.Impl
 		result.OriginalDims = newShape
